@@ -135,8 +135,15 @@ def make_partial_recorder(tr: Tracer, tag: str, signal: str):
 
     async def _rec(v):
         tr.partial.append({"tag": tag, "name": signal, "got": v is not missing})
-    ns = {"missing": missing, "_rec": _rec}
-    exec(f"async def {signal}({only}=missing):\n    return await _rec({only})\n", ns)  # noqa: S102
+
+    def _rec_sync(v):
+        tr.partial.append({"tag": tag, "name": signal, "got": v is not missing})
+    ns = {"missing": missing, "_rec": _rec, "_rec_sync": _rec_sync}
+    if len(signal) % 2:
+        # every other one is a plain function (run by the library in a thread: it closes over the tracer, as subscribers do)
+        exec(f"def {signal}({only}=missing):\n    return _rec_sync({only})\n", ns)  # noqa: S102
+    else:
+        exec(f"async def {signal}({only}=missing):\n    return await _rec({only})\n", ns)  # noqa: S102
     return ns[signal]
 
 
